@@ -167,6 +167,15 @@ CHECKS["C16"] = ("exploration",
     "exploration level.",
     "Trusted: PATH-based renderer selection; the path categories of NbPaths for 'touches a non-ignored category'.", "DESIGN.md §5 C16")
 
+CHECKS["C13"] = ("exploration",
+    "TLC trace validation (FrameTrace.tla: ArgsUnchanged, ArgsUnchangedAfterResultMutation, Recomputable) of every public library call "
+    "on inputs of the C01-C03 spaces, with arguments re-encoded after the call and after scribbling on every container of the result",
+    "The frame condition UNCHANGED args is a TLA+ clause evaluated by TLC on the encoded arguments before / after each call and after "
+    "the returned result has been mutated everywhere; there is no state space to explore beyond the calls themselves, so the level is "
+    "exploration (breadth over functions x inputs x strategies).",
+    "Trusted: json round trip + harness/encode.py as 'serialises to the same JSON'; scribble reaches every dict/list of the result.",
+    "DESIGN.md §5 C13")
+
 NOT_YET = {}
 
 PROPS = [json.loads(l)["id"] for l in open(os.path.join(VERIF, "properties.jsonl"))]
